@@ -1,1 +1,314 @@
-fn main(){ let b = umya_spreadsheet::new_file(); println!("{}", b.get_sheet_count()); }
+//! usim — deterministic simulator with fault injection for umya-spreadsheet.
+mod c13;
+mod crypto;
+mod decode;
+mod engine;
+mod engines;
+mod rng;
+mod shim;
+mod world;
+
+use engine::*;
+use serde_json::{json, Value};
+use std::collections::{BTreeMap, BTreeSet};
+use std::sync::atomic::{AtomicU64, Ordering};
+use std::sync::{Arc, Mutex};
+use std::time::Instant;
+
+fn arg(args: &[String], name: &str) -> Option<String> {
+    args.iter().position(|a| a == name).and_then(|i| args.get(i + 1).cloned())
+}
+
+fn parse_u64(s: &str) -> u64 {
+    if let Some(h) = s.strip_prefix("0x") {
+        u64::from_str_radix(h, 16).unwrap_or(0)
+    } else {
+        s.parse().unwrap_or(0)
+    }
+}
+
+#[derive(Default)]
+struct RunAgg {
+    evaluations: u64,
+    nontrivial: u64,
+    sigs: Vec<u64>,
+    probes: BTreeMap<String, u64>,
+    faults: BTreeMap<String, u64>,
+    steps: BTreeMap<String, u64>,
+    violations: Vec<Value>,
+    harness_errors: Vec<String>,
+    samples: Vec<Value>,
+}
+
+fn main() {
+    let args: Vec<String> = std::env::args().collect();
+    let cmd = args.get(1).cloned().unwrap_or_default();
+    std::panic::set_hook(Box::new(|_| {}));
+    let scratch = arg(&args, "--scratch").unwrap_or_else(|| "/verif/scratch".to_string());
+    let _ = std::fs::create_dir_all(&scratch);
+    let code = match cmd.as_str() {
+        "selftest" => cmd_selftest(&scratch),
+        "run" => cmd_run(&args, &scratch),
+        "replay" => cmd_replay(&args, &scratch),
+        "minimise" => cmd_minimise(&args, &scratch),
+        _ => {
+            eprintln!("usage: usim selftest|run|replay|minimise ...");
+            2
+        }
+    };
+    std::process::exit(code);
+}
+
+fn cmd_selftest(scratch: &str) -> i32 {
+    if let Err(e) = shim::self_test(scratch) {
+        println!("HARNESS-ERROR seam self-test: {}", e);
+        return 2;
+    }
+    if let Err(e) = warm_up(0) {
+        println!("HARNESS-ERROR warm-up: {}", e);
+        return 2;
+    }
+    println!("selftest ok: S3 shim sees open/write/close/rename/unlink; S5 hash keys pinned");
+    0
+}
+
+fn cmd_run(args: &[String], scratch: &str) -> i32 {
+    let engine = arg(args, "--engine").unwrap_or_default();
+    let seed = parse_u64(&arg(args, "--seed").unwrap_or("0".into()));
+    let from = parse_u64(&arg(args, "--from").unwrap_or("0".into()));
+    let to = parse_u64(&arg(args, "--to").unwrap_or("1".into()));
+    let tier = arg(args, "--tier").unwrap_or("quick".into());
+    let jobs = parse_u64(&arg(args, "--jobs").unwrap_or("16".into())).max(1);
+    let out_path = arg(args, "--out");
+    let max_s = parse_u64(&arg(args, "--max-seconds").unwrap_or("100000".into()));
+    let nsamples = parse_u64(&arg(args, "--samples").unwrap_or("3".into())) as usize;
+    if let Err(e) = shim::self_test(scratch) {
+        println!("HARNESS-ERROR seam self-test: {}", e);
+        return 2;
+    }
+    if let Err(e) = warm_up(seed) {
+        println!("HARNESS-ERROR warm-up: {}", e);
+        return 2;
+    }
+    let t0 = Instant::now();
+    let next = Arc::new(AtomicU64::new(from));
+    let results: Arc<Mutex<BTreeMap<u64, RunAgg>>> = Arc::new(Mutex::new(BTreeMap::new()));
+    let mut handles = Vec::new();
+    for _ in 0..jobs {
+        let next = next.clone();
+        let results = results.clone();
+        let engine = engine.clone();
+        let tier = tier.clone();
+        let scratch = scratch.to_string();
+        handles.push(std::thread::spawn(move || loop {
+            let i = next.fetch_add(1, Ordering::SeqCst);
+            if i >= to || t0.elapsed().as_secs() >= max_s {
+                break;
+            }
+            let rs = rng::run_seed(seed, &engine, i);
+            let mut agg = RunAgg::default();
+            let cs = {
+                let e2 = engine.clone();
+                let t2 = tier.clone();
+                let s2 = scratch.clone();
+                // case generation may itself execute a probing run; give it a pinned hash seed too
+                std::thread::Builder::new()
+                    .stack_size(16 << 20)
+                    .spawn(move || {
+                        shim::set_thread_hash_seed(rng::mix(rs, 77));
+                        std::panic::catch_unwind(|| engines::cases(&e2, rs, &t2, &s2))
+                    })
+                    .unwrap()
+                    .join()
+            };
+            let cs = match cs {
+                Ok(Ok(c)) => c,
+                _ => {
+                    agg.harness_errors.push(format!("run {}: case generation panicked", i));
+                    results.lock().unwrap().insert(i, agg);
+                    continue;
+                }
+            };
+            for (k, case) in cs.iter().enumerate() {
+                let o = execute_case(case, &scratch);
+                agg.evaluations += 1;
+                if let Some(e) = &o.harness_error {
+                    agg.harness_errors.push(format!("run {} case {}: {}", i, k, e));
+                }
+                if o.nontrivial {
+                    agg.nontrivial += 1;
+                    agg.sigs.push(rng::fnv(&o.signature));
+                }
+                for (p, n) in &o.probes {
+                    *agg.probes.entry(p.clone()).or_insert(0) += n;
+                }
+                for (p, n) in &o.faults_fired {
+                    *agg.faults.entry(p.clone()).or_insert(0) += n;
+                }
+                for (p, n) in &o.steps {
+                    *agg.steps.entry(p.clone()).or_insert(0) += n;
+                }
+                for v in &o.verdicts {
+                    agg.violations.push(json!({"run": i, "case_index": k, "verdict": v, "case": case, "record": o.record}));
+                }
+                if agg.samples.len() < 2 && (o.nontrivial || k == 0) {
+                    agg.samples.push(json!({"run": i, "case": case, "record": o.record, "verdicts": o.verdicts}));
+                }
+            }
+            results.lock().unwrap().insert(i, agg);
+        }));
+    }
+    for h in handles {
+        let _ = h.join();
+    }
+    // merge in run-index order: the aggregate does not depend on --jobs
+    let results = results.lock().unwrap();
+    let mut evaluations = 0u64;
+    let mut sigs: BTreeSet<u64> = BTreeSet::new();
+    let mut nontrivial = 0u64;
+    let mut probes: BTreeMap<String, u64> = BTreeMap::new();
+    let mut faults: BTreeMap<String, u64> = BTreeMap::new();
+    let mut steps: BTreeMap<String, u64> = BTreeMap::new();
+    let mut viol_counts: BTreeMap<String, u64> = BTreeMap::new();
+    let mut viol_first: Vec<Value> = Vec::new();
+    let mut herr: Vec<String> = Vec::new();
+    let mut samples: Vec<Value> = Vec::new();
+    for (_, a) in results.iter() {
+        evaluations += a.evaluations;
+        nontrivial += a.nontrivial;
+        sigs.extend(a.sigs.iter().cloned());
+        for (k, v) in &a.probes {
+            *probes.entry(k.clone()).or_insert(0) += v;
+        }
+        for (k, v) in &a.faults {
+            *faults.entry(k.clone()).or_insert(0) += v;
+        }
+        for (k, v) in &a.steps {
+            *steps.entry(k.clone()).or_insert(0) += v;
+        }
+        for v in &a.violations {
+            let verdict: Verdict = serde_json::from_value(v["verdict"].clone()).unwrap();
+            let key = verdict.key();
+            let c = viol_counts.entry(key).or_insert(0);
+            *c += 1;
+            // keep the first few witnesses of each distinct (class, facets); prefer short ones later
+            if *c <= 3 {
+                viol_first.push(v.clone());
+            }
+        }
+        herr.extend(a.harness_errors.iter().cloned());
+        for s in &a.samples {
+            if samples.len() < nsamples {
+                samples.push(s.clone());
+            }
+        }
+    }
+    let wall = t0.elapsed().as_secs_f64();
+    let summary = json!({
+        "engine": engine, "seed": seed, "tier": tier, "from": from, "to": to,
+        "runs_done": results.len(), "evaluations": evaluations, "nontrivial": nontrivial,
+        "distinct_nontrivial": sigs.len(), "probes": probes, "faults_fired": faults, "steps": steps,
+        "violation_counts": viol_counts, "violations": viol_first, "harness_errors": herr.iter().take(20).collect::<Vec<_>>(),
+        "n_harness_errors": herr.len(), "samples": samples, "wall_s": wall,
+    });
+    let text = serde_json::to_string(&summary).unwrap();
+    match out_path {
+        Some(p) => std::fs::write(p, text).unwrap(),
+        None => println!("{}", text),
+    }
+    if !herr.is_empty() {
+        2
+    } else if !viol_counts.is_empty() {
+        1
+    } else {
+        0
+    }
+}
+
+fn load_case(path: &str) -> Option<Value> {
+    let t = std::fs::read_to_string(path).ok()?;
+    let v: Value = serde_json::from_str(&t).ok()?;
+    if v.get("case").is_some() {
+        Some(v["case"].clone())
+    } else {
+        Some(v)
+    }
+}
+
+fn cmd_replay(args: &[String], scratch: &str) -> i32 {
+    let path = match arg(args, "--file") {
+        Some(p) => p,
+        None => return 2,
+    };
+    let case = match load_case(&path) {
+        Some(c) => c,
+        None => {
+            println!("HARNESS-ERROR cannot read replay file {}", path);
+            return 2;
+        }
+    };
+    let pseed = get_u64(&case, "process_seed");
+    if let Err(e) = warm_up(pseed) {
+        println!("HARNESS-ERROR warm-up: {}", e);
+        return 2;
+    }
+    let o = execute_case(&case, scratch);
+    println!("{}", serde_json::to_string(&json!({"verdicts": o.verdicts, "harness_error": o.harness_error, "record": o.record, "probes": o.probes})).unwrap());
+    if o.harness_error.is_some() {
+        2
+    } else if !o.verdicts.is_empty() {
+        1
+    } else {
+        0
+    }
+}
+
+fn cmd_minimise(args: &[String], scratch: &str) -> i32 {
+    let path = arg(args, "--file").unwrap_or_default();
+    let out = arg(args, "--out").unwrap_or_default();
+    let budget = parse_u64(&arg(args, "--budget").unwrap_or("300".into())) as usize;
+    let t: Value = match std::fs::read_to_string(&path).ok().and_then(|t| serde_json::from_str(&t).ok()) {
+        Some(v) => v,
+        None => return 2,
+    };
+    let case = t["case"].clone();
+    let verdict: Verdict = match serde_json::from_value(t["verdict"].clone()) {
+        Ok(v) => v,
+        Err(_) => return 2,
+    };
+    let pseed = get_u64(&case, "process_seed");
+    if let Err(e) = warm_up(pseed) {
+        println!("HARNESS-ERROR warm-up: {}", e);
+        return 2;
+    }
+    let key = verdict.key();
+    let engine = case["engine"].as_str().unwrap_or("").to_string();
+    let t0 = Instant::now();
+    let before: BTreeMap<String, usize> =
+        engines::shrink_keys(&engine).iter().map(|k| (k.to_string(), case[*k].as_array().map(|a| a.len()).unwrap_or(0))).collect();
+    let (min, used) = minimise(&case, engines::shrink_keys(&engine), budget, |c| {
+        if t0.elapsed().as_secs() > 90 {
+            return false;
+        }
+        let o = execute_case(c, scratch);
+        o.verdicts.iter().any(|v| v.key() == key)
+    });
+    // verify the minimised trace twice
+    let o1 = execute_case(&min, scratch);
+    let o2 = execute_case(&min, scratch);
+    let v1 = o1.verdicts.iter().find(|v| v.key() == key).cloned();
+    let ok = v1.is_some() && o2.verdicts.iter().any(|v| v.key() == key);
+    let after: BTreeMap<String, usize> =
+        engines::shrink_keys(&engine).iter().map(|k| (k.to_string(), min[*k].as_array().map(|a| a.len()).unwrap_or(0))).collect();
+    let doc = json!({
+        "property": verdict.property, "verdict": v1.clone().unwrap_or(verdict), "case": min, "record": o1.record,
+        "minimised_from": before, "minimised_to": after, "minimiser_executions": used, "replays_verified": ok,
+    });
+    std::fs::write(&out, serde_json::to_string_pretty(&doc).unwrap()).unwrap();
+    if ok {
+        0
+    } else {
+        println!("HARNESS-ERROR minimised trace does not reproduce");
+        2
+    }
+}
